@@ -1,6 +1,7 @@
 (* C03 - Key history returns a verifying, complete account of a label's versions. *)
 From Coq Require Import List Bool NArith.
 From Akd Require Import NodeLabel Hashing Tree Directory Verify DirFacts.
+From Akd Require DirRefine HistComplete NodeLabelFacts MarkerBounds Marker.
 Import ListNotations.
 Open Scope N_scope.
 
@@ -8,3 +9,27 @@ Theorem C03_unpublished_refused : forall cfg ck vl vp st l params,
   user_history (d_states st) l (d_epoch st) = [] -> key_history cfg ck vl vp st l params = DErrNotFound.
 Proof. exact key_history_absent. Qed.
 Print Assumptions C03_unpublished_refused.
+
+(* in every reachable state (C02_invariant_reachable), under non-colliding well-formed VRF outputs,
+   every tree-related part of the history proof an honest directory returns - for Complete and for
+   MostRecent(n) - verifies against the returned root hash: each entry's existence proof and the
+   stale proof of its predecessor, the past-marker existence proofs, and the non-membership proofs
+   of all future markers (they are versions above the latest one, MarkerBounds) *)
+Theorem C03_tree_parts_verify : forall cfg ck (vl : bytes -> bool -> N -> option nlabel) vp,
+  canonical (c_empty_label cfg) = false ->
+  (forall l f v nl, vl l f v = Some nl -> NodeLabelFacts.WF nl /\ canonical nl = true /\ llen nl = 256) ->
+  (forall l f v l' f' v' nl, vl l f v = Some nl -> vl l' f' v' = Some nl -> l = l' /\ f = f' /\ v = v') ->
+  forall st l params p eh, DirRefine.DirInv vl st -> key_history cfg ck vl vp st l params = DOk (p, eh) ->
+  eh = epoch_hash cfg st /\
+  Forall (fun u => verify_membership cfg (snd eh) (up_existence u) = true /\
+                   match up_prev u with Some m => verify_membership cfg (snd eh) m = true | None => True end) (hp_updates p) /\
+  Forall (fun m => verify_membership cfg (snd eh) m = true) (hp_past p) /\
+  Forall (fun m => verify_nonmembership cfg (snd eh) m = true) (hp_future p).
+Proof. exact HistComplete.history_tree_parts_verify. Qed.
+Print Assumptions C03_tree_parts_verify.
+
+Theorem C03_future_markers_are_later_versions : forall s n E past future,
+  n <> 0 -> n <= E -> Marker.get_marker_versions s n E = Some (past, future) ->
+  forall x, In x future -> n < x /\ x <= E.
+Proof. exact MarkerBounds.get_marker_versions_future. Qed.
+Print Assumptions C03_future_markers_are_later_versions.
